@@ -48,6 +48,7 @@ var interestingDifficulties = []uint64{1, 2, 1499, 1500, 1501, 3000, 31500000 - 
 	1 << 32, 1 << 40, 1<<62 - 1, 1 << 62, 1<<63 - 1, 1 << 63, 1<<63 + 12345, 1<<64 - 1}
 
 func runC12(r *simrt.Run) {
+	r.WatchLocks() // a lock of the node that is never released is a violation, not a hang
 	t := r.T
 	mode := nomsim.SporkMode(t.Choose(3))
 	w := nomsim.NewWorld(r, nomsim.MockGenesis(mode))
